@@ -69,6 +69,8 @@ def run_one(pid, base, m):
         return name, "NOT-APPLICABLE (pattern not found)", 0
     open(p, "w").write(s.replace(old, new, 1))
     env = dict(os.environ, VERIF_REPO=root, VERIF_BUILD="/verif/build/mut_%s_%s" % (pid, name))
+    if os.environ.get("MUT_FAST", "1") == "1":     # skip the (tree-independent) std calibration, char (+ one wide type) only
+        env.update(VERIF_NOCALIB="1", VERIF_TYPES="char,char16_t")
     t0 = time.time()
     r = subprocess.run([sys.executable, os.path.join(os.path.dirname(os.path.abspath(__file__)), "check.py"), pid, "--tier", "quick"],
                        capture_output=True, text=True, env=env)
